@@ -1371,3 +1371,149 @@ Theorem body_mint_needs_capture :
   render_to str wr_str (guard_bodies ok_html (world1 false fp_placeholder [(s_p, bad_tpl)] bad_comps)) 50 bad_tpl None
             [(s_p, VStr poison0 false)] [] [] = RFail ErrRender.
 Proof. vm_compute. repeat split; reflexivity. Qed.
+
+(* ================================================================== part 4: the sinks, the mint points (B) *)
+
+Section Sinks.
+  Variable W : Type.
+  Variable wr : W -> str -> option W.
+  Variable wd : world.
+
+  (* every WriteTop/WritePath write is one event *)
+  Lemma write_value_is_event a s o v :
+    write_value W wr wd a s o v = emit W wr s o (event_text wd (write_event a v)).
+  Proof. unfold write_value, write_event. destruct (negb a || value_is_safe v); reflexivity. Qed.
+
+  (* with autoescape on, a value is written raw only if Value::is_safe says so *)
+  Theorem raw_only_if_safe v : write_event true v = ERaw v -> value_is_safe v = true.
+  Proof. unfold write_event. cbn. destruct (value_is_safe v); [reflexivity|discriminate]. Qed.
+
+  Theorem escaped_unless_safe v : value_is_safe v = false -> write_event true v = EEsc v.
+  Proof. unfold write_event. cbn. intros ->. reflexivity. Qed.
+
+  (* the converse direction *)
+  Theorem autoescape_off_writes_verbatim s o v :
+    write_value W wr wd false s o v = emit W wr s o (w_format wd v).
+  Proof. reflexivity. Qed.
+
+  Theorem safe_value_bypasses_escaper a s o v :
+    value_is_safe v = true -> write_value W wr wd a s o v = emit W wr s o (w_format wd v).
+  Proof. intros H. unfold write_value. rewrite H, orb_true_r. reflexivity. Qed.
+
+  (* which values are safe: exactly the generated arms; in particular a string iff flagged,
+     containers never (they are always escaped as a whole, whatever they contain) *)
+  Theorem safe_values v :
+    value_is_safe v = true <-> (exists s, v = VStr s true) \/
+                               (match v with VStr _ _ | VArr _ | VMap _ | VBytes _ => False | _ => True end).
+  Proof.
+    destruct v as [ | | b | r z | f | s fl | l | m | b ]; cbn; split; intros H;
+      try discriminate; try reflexivity; try (right; exact I);
+      try (destruct H as [(s0 & X)|[]]; inversion X; reflexivity).
+    left. subst fl. exists s. reflexivity.
+  Qed.
+
+  (* no double escape: what a capture collected is written verbatim when printed as is.
+     [EndCapture; WriteTop] on a state whose innermost buffer is c writes exactly w_format (VStr c true) *)
+  Theorem no_double_escape fuel tpl ae depth s o c t :
+    caps s = c :: t ->
+    run W wr wd (S (S (S fuel))) tpl ae depth [EndCapture; WriteTop] 0 s o =
+    match emit W wr (upd_stack (upd_caps s t) (stack s)) o (w_format wd (VStr c true)) with
+    | Some (s2, o2) => RDone s2 o2
+    | None => RFail ErrIo
+    end.
+  Proof.
+    intros Hc. cbn [run nth_error]. rewrite Hc. cbn [run nth_error push pop1 upd_caps stack upd_stack is_undefined].
+    rewrite safe_value_bypasses_escaper by reflexivity.
+    destruct (emit W wr _ o (w_format wd (VStr c true))) as [[s2 o2]|]; reflexivity.
+  Qed.
+
+  (* the mint points push exactly the text of the buffer they close, flagged *)
+  Theorem end_capture_mints fuel tpl ae depth ch ip s o c t :
+    nth_error ch ip = Some EndCapture -> caps s = c :: t ->
+    run W wr wd (S fuel) tpl ae depth ch ip s o =
+    run W wr wd fuel tpl ae depth ch (S ip) (push (upd_caps s t) (VStr c true)) o.
+  Proof. intros Hi Hc. cbn [run]. rewrite Hi, Hc. reflexivity. Qed.
+
+  (* operations that build a new string drop the flag *)
+  Theorem str_concat_is_normal fuel tpl ae depth ch ip s o a b st :
+    nth_error ch ip = Some StrConcat -> stack s = b :: a :: st ->
+    exists r, run W wr wd (S fuel) tpl ae depth ch ip s o =
+              run W wr wd fuel tpl ae depth ch (S ip) (push (upd_stack s st) (VStr r false)) o.
+  Proof. intros Hi Hs. cbn [run]. rewrite Hi. unfold pop2. rewrite Hs. eexists. reflexivity. Qed.
+End Sinks.
+
+(* index/slice keep the flag and yield a sub-multiset of the characters: origin (iv) *)
+Theorem index_slice_keep_flag_sublist :
+  (forall s fl item c fl', get_item_seq (VStr s fl) item = ROk (VStr c fl') -> fl' = fl /\ incl c s) /\
+  (forall s fl a b st r fl', value_slice (VStr s fl) a b st = ROk (VStr r fl') -> fl' = fl /\ incl r s).
+Proof.
+  split.
+  - intros s fl item c fl' E. cbn in E. destruct (resolve_index item _) as [[i|]|]; cbn in E; try discriminate.
+    destruct (index_usize s i) eqn:Ei; [|discriminate]. inversion E; subst. split; [reflexivity|].
+    intros x [<-|[]]. eapply index_usize_in, Ei.
+  - intros s fl a b st r fl' E. unfold value_slice in E. destruct (_ =? 0)%Z; [discriminate|].
+    destruct (slice_items s a b _) eqn:Es; [|discriminate]. inversion E; subst. split; [reflexivity|].
+    eapply slice_items_incl, Es.
+Qed.
+
+(* ================================================================== part 5: autoescape by suffix *)
+
+Lemma str_eqb_eq (a b : str) : str_eqb a b = true <-> a = b.
+Proof.
+  revert b. induction a as [|x a IH]; intros [|y b]; cbn; split; intros H; try discriminate; try reflexivity.
+  - apply andb_prop in H. destruct H as [H1 H2]. apply N.eqb_eq in H1. apply IH in H2. subst. reflexivity.
+  - inversion H; subst. rewrite N.eqb_refl. apply IH. reflexivity.
+Qed.
+
+Theorem ends_with_spec s suf : ends_with s suf = true <-> exists p, s = p ++ suf.
+Proof.
+  unfold ends_with. rewrite andb_true_iff, Nat.leb_le, str_eqb_eq. split.
+  - intros [Hl He]. exists (firstn (length s - length suf) s).
+    pose proof (firstn_skipn (length s - length suf) s) as F. rewrite He in F. symmetry. exact F.
+  - intros (p & ->). rewrite app_length. split; [lia|].
+    replace (length p + length suf - length suf) with (length p) by lia.
+    rewrite skipn_app, skipn_all, Nat.sub_diag. reflexivity.
+Qed.
+
+Lemma set_templates_auto_escape_spec r :
+  r_suffixes (set_templates_auto_escape r) = r_suffixes r /\
+  map fst (r_templates (set_templates_auto_escape r)) = map fst (r_templates r) /\
+  forall n t, In (n, t) (r_templates (set_templates_auto_escape r)) ->
+              t_autoescape t = autoescape_of (r_suffixes r) n.
+Proof.
+  split; [reflexivity|]. split.
+  - cbn. rewrite map_map. reflexivity.
+  - intros n t Hin. cbn in Hin. apply in_map_iff in Hin. destruct Hin as ([n0 t0] & Heq & _).
+    inversion Heq; subst. reflexivity.
+Qed.
+
+(* after any non-empty history of finalize / autoescape_on calls every template's flag is
+   "its name ends with one of the CURRENT suffixes" *)
+Theorem autoescape_flag_by_suffix : forall ops r, ops <> [] ->
+  let r' := fold_left apply_op ops r in
+  forall n t, In (n, t) (r_templates r') ->
+    t_autoescape t = existsb (ends_with n) (r_suffixes r') /\
+    (t_autoescape t = true <-> exists suf p, In suf (r_suffixes r') /\ n = p ++ suf).
+Proof.
+  intros ops r Hne.
+  destruct (exists_last Hne) as (ops' & o & ->). rewrite fold_left_app. cbn [fold_left]. cbv zeta.
+  set (r0 := fold_left apply_op ops' r). set (r' := apply_op r0 o). intros n t Hin.
+  assert (H : t_autoescape t = autoescape_of (r_suffixes r') n).
+  { subst r'. destruct o as [sfx|added]; cbn [apply_op] in *.
+    - unfold autoescape_on in *. destruct (set_templates_auto_escape_spec {| r_suffixes := sfx; r_templates := r_templates r0 |}) as (Hs & _ & Hf).
+      rewrite Hs. apply Hf, Hin.
+    - unfold finalize_with in *.
+      match type of Hin with In _ (r_templates (set_templates_auto_escape ?x)) =>
+        destruct (set_templates_auto_escape_spec x) as (Hs & _ & Hf) end.
+      rewrite Hs. apply Hf, Hin. }
+  split; [exact H|]. rewrite H. unfold autoescape_of. rewrite existsb_exists. split.
+  - intros (suf & Hs & He). apply ends_with_spec in He. destruct He as (p & ->). exists suf, p. auto.
+  - intros (suf & p & Hs & ->). exists suf. split; [exact Hs|]. apply ends_with_spec. exists p. reflexivity.
+Qed.
+
+(* the default suffix list of Tera::default, re-extracted from tera.rs *)
+Example default_suffixes_example :
+  map (autoescape_of default_autoescape_suffixes)
+      [[97;46;104;116;109;108]; [97;46;116;120;116]; [97;46;104;116;109;108;46;116;120;116]; [46;120;109;108]; [104;116;109;108]]%N
+  = [true; false; false; true; false].
+Proof. vm_compute. reflexivity. Qed.
